@@ -118,6 +118,8 @@ class Mod:
             self.tree = ast.parse(self.source, filename=str(path))
         except SyntaxError as e:
             raise AnalysisError(f"{rel}: does not parse: {e}")
+        from .matchlower import lower_matches
+        lower_matches(self.tree)      # `match` read as the if / elif ladder it abbreviates (one form for every rule)
         if renames:
             from .normalize import apply_attribute_renames
 
